@@ -8,6 +8,11 @@
   PARSE-PROGRESS   each `assert!(tokens.idx > start_idx)` of the parser is protected by a sibling idiom:
                    G1 explicit idx test, G2 invalid/placeholder test on the sub-parser's result, G3 unconditional
                    pop of a peeked token with no un-consuming callee in between.
+  RECURSION-PROGRESS in every cycle of token-taking parser functions at least one call is made only after a token has
+                   certainly been consumed (`tokens.idx > start`, a pop under a successful peek, a callee that starts by
+                   consuming the token just peeked) or is a reviewed edge (tables/parse_recursion.json) whose recorded
+                   guard still holds. `==` / `!=` against the start index prove nothing: after the end-of-file unpop the
+                   index can be smaller than the start.
   POP-UNPOP        every `unpop()` is paired with a `pop()` of the same call that returned a token.
 """
 from .. import panicinv as PI, parseprog as PP, mir as M, dflow as D
@@ -31,6 +36,9 @@ def run(ctx, res):
             res.bad("PARSE-PROGRESS", key, "forward-progress assertion in `%s`: %s" % (f.path, why), s.loc())
     PP.loop_guards(P, reach, res)
     PP.pop_unpop(P, reach, res)
+    import json as _json, os as _os
+    from ..core import VERIF as _V
+    PP.recursion_progress(P, reach, res, _json.load(open(_os.path.join(_V, "tables", "parse_recursion.json"))))
     # KEYWORD-GUARD: parse_symbol leaves a misplaced keyword unconsumed, so a sub-parser that starts with
     # parse_symbol and then recurses into parse_expression must not be entered on a keyword: the dispatch to
     # parse_struct_literal has to be behind a KEYWORDS.contains test (otherwise `else{` recurses forever).
